@@ -1,6 +1,6 @@
 (* C08 -- property theorems only.  Proofs live in C08/Proofs*.v. *)
 From Coq Require Import NArith List Bool Permutation.
-From DV Require Import Base.Outcome C08.Gen C08.Model C08.Spec C08.ProofsQuery C08.ProofsBuild C08.ProofsHist C08.ProofsGood C08.ProofsPlain.
+From DV Require Import Base.Outcome C08.Gen C08.Model C08.Spec C08.ProofsQuery C08.ProofsBuild C08.ProofsHist C08.ProofsGood C08.ProofsPlain C08.ProofsGroup C08.ProofsSafe.
 Import ListNotations.
 Local Open Scope N_scope.
 
@@ -13,6 +13,23 @@ Theorem C08_build_answers_spec : forall zf, wf_zone zf = true ->
   forall q qt, query (fst (zf_build zf)) q qt = spec zf q qt.
 Proof. exact build_answers_spec. Qed.
 Print Assumptions C08_build_answers_spec.
+
+(* zones given as flat record lists: Zonefile::insert groups the records into RRsets *)
+Theorem C08_grouping : forall rs, accepted rs = true ->
+  forall o t, zf_rrset (zf_of_records rs) o t = group rs o t.
+Proof. exact grouping. Qed.
+Print Assumptions C08_grouping.
+
+Theorem C08_build_answers_spec_records : forall rs, accepted rs = true -> wf_zone (zf_of_records rs) = true ->
+  forall q qt, query (build rs) q qt = spec (zf_of_records rs) q qt /\
+               (forall o t, zf_rrset (zf_of_records rs) o t = group rs o t).
+Proof. exact build_answers_spec_records. Qed.
+Print Assumptions C08_build_answers_spec_records.
+
+Theorem C08_any_answer_is_member : forall z q r, clean (n_special z) = None ->
+  a_content (query z q rt_any) = AData r -> exists p x, node_at z p = Some x /\ In r (n_rrsets x).
+Proof. exact any_answer_is_member. Qed.
+Print Assumptions C08_any_answer_is_member.
 
 Theorem C08_build_view : forall zf, wf_zone zf = true ->
   snd (zf_build zf) = true /\ (forall p, view_of (fst (zf_build zf)) p = flat_view zf p) /\
@@ -54,6 +71,25 @@ Theorem C08_plain_history_independent : forall h h',
   forall q qt, query (run h) q qt = query (run h') q qt.
 Proof. exact plain_history_independent. Qed.
 Print Assumptions C08_plain_history_independent.
+
+(* zones with delegations / aliases built from a zone file, then RRset-level updater operations *)
+Theorem C08_same_state_same_answers : forall t t', wfu t -> wfu t' ->
+  (forall p, rrsets_at t p = rrsets_at t' p) -> (forall p, cspecial_at t p = cspecial_at t' p) ->
+  cspecial_at t [] = None -> forall q qt, query t q qt = query t' q qt.
+Proof. exact same_state_same_answers. Qed.
+Print Assumptions C08_same_state_same_answers.
+
+Theorem C08_safe_history_state : forall zs us, zone_file_only zs = true -> forallb safe_op us = true ->
+  wfu (run (zs ++ us)) /\ wfu (run zs) /\ forall p, cspecial_at (run (zs ++ us)) p = cspecial_at (run zs) p.
+Proof. exact safe_history_state. Qed.
+Print Assumptions C08_safe_history_state.
+
+Theorem C08_safe_history_independent : forall zs us t, zone_file_only zs = true -> forallb safe_op us = true ->
+  wfu t -> (forall p, rrsets_at (run (zs ++ us)) p = rrsets_at t p) ->
+  (forall p, cspecial_at (run zs) p = cspecial_at t p) -> cspecial_at t [] = None ->
+  forall q qt, query (run (zs ++ us)) q qt = query t q qt.
+Proof. exact safe_history_independent. Qed.
+Print Assumptions C08_safe_history_independent.
 
 Theorem C08_known_classes_break_representation : forall t zf p x, node_at t p = Some x ->
   (is_apex p || node_exists x = true -> clean (n_special x) <> i_special (info_at_g (zf_normal zf) zf p) -> ~ represents t zf) /\
